@@ -15,6 +15,21 @@ for d in sorted(glob.glob("/tmp/seedwork_C*/change_*")):
     shutil.copy(os.path.join(d, "patch.diff"), dst)
     if os.path.isdir(os.path.join(dst, "demo")): shutil.rmtree(os.path.join(dst, "demo"))
     shutil.copytree(os.path.join(d, "demo"), os.path.join(dst, "demo"), ignore=shutil.ignore_patterns("target", "Cargo.lock"))
+    # demos were written against the sub-agent's own worktree /tmp/seed_<P>; make them point at the neutral
+    # scratch path used by tools/seeddemo.sh
+    import re
+    for root, _, files in os.walk(os.path.join(dst, "demo")):
+        for f in files:
+            fp = os.path.join(root, f)
+            try: t = open(fp).read()
+            except Exception: continue
+            t2 = re.sub(r"/tmp/seed_C\d+", "/tmp/seeded_wt", t)
+            t2 = re.sub(r"/tmp/seedwork_C\d+/change_\d+", dst, t2)
+            if t2 != t: open(fp, "w").write(t2)
+    rt = os.path.join(d, "RUN.txt")
+    if os.path.exists(rt) and not os.path.exists(os.path.join(dst, "demo", "RUN.txt")):
+        t = open(rt).read()
+        open(os.path.join(dst, "demo", "RUN.txt"), "w").write(re.sub(r"/tmp/seedwork_C\d+/change_\d+", dst, re.sub(r"/tmp/seed_C\d+", "/tmp/seeded_wt", t)))
     cr = {}
     if os.path.exists(os.path.join(d, "check_result.json")): cr = json.load(open(os.path.join(d, "check_result.json")))
     out = {
